@@ -92,7 +92,7 @@ theorem fragLoop_ne (unit : Nat) (sr : Int) (lb fuel pos raw : Nat) (payload b :
 theorem sizedOK_spec (p : Params) (h : sizedOK p = true) : SizedParamsOK p ∧ p.valueExt = false := by
   unfold sizedOK at h
   simp only [Bool.and_eq_true, Bool.or_eq_true, Bool.not_eq_true'] at h
-  obtain ⟨⟨⟨⟨h1, h2⟩, h3⟩, h4⟩, h5⟩ := h
+  obtain ⟨⟨⟨⟨⟨h1, h2⟩, h3⟩, h4⟩, h5⟩, _⟩ := h
   refine ⟨⟨?_, ?_, ?_, ?_⟩, h5⟩
   · intro hs
     rcases h1 with h1 | h1
@@ -106,6 +106,24 @@ theorem sizedOK_spec (p : Params) (h : sizedOK p = true) : SizedParamsOK p ∧ p
     rw [hl] at h3
     simpa using h3
   · exact AperTotal.sizeOK_spec p h4
+
+theorem sizedOK_frag (p : Params) (h : sizedOK p = true) : FragParamsOK p := by
+  unfold sizedOK at h
+  simp only [Bool.and_eq_true] at h
+  have hf := h.2
+  unfold fragOK at hf
+  simp only [Bool.and_eq_true, Bool.or_eq_true, beq_iff_eq] at hf
+  obtain ⟨hA, hB⟩ := hf
+  refine ⟨?_, ?_⟩
+  · intro hu
+    rcases hA with (hA | hA) | hA
+    · rw [hu] at hA; cases hA
+    · exact Or.inl hA
+    · exact Or.inr hA
+  · intro u hu hle
+    rw [hu] at hB
+    simp only [Bool.or_eq_true, decide_eq_true_eq] at hB
+    omega
 
 /-- a fixed size (sizeRange 1) means `ub ≥ 1` octets / bits -/
 theorem sized_fixed_ub (len : Nat) (params : Params) (pre : Bits) (lb ub sr : Int) (hok : SizedParamsOK params)
